@@ -95,13 +95,20 @@ def replace(vc):
     w = P.World(vc)
     old = P.Conn(w, 'old', in_flight=2, orphans=[1, 2], threshold_reached=True)
     pool, lock = P.host_connection(vc, w, old, replacing=True, keyspace='ks')
-    mode = vc.choice('scenario', ['ok', 'factory-fails', 'already-shutdown', 'shutdown-during-open'])
+    mode = vc.choice('scenario', ['ok', 'factory-fails', 'already-shutdown', 'shutdown-during-open', 'shutdown-during-keyspace-selection'])
     if mode == 'already-shutdown':
         pool.attrs['is_shutdown'] = True
     if mode == 'factory-fails':
         w.factory_fails = True
     if mode == 'shutdown-during-open':
         w.factory_hook = lambda: call_value(vc.ctx, BoundMethod(resolve(HC + 'shutdown'), pool), [], {})
+    if mode == 'shutdown-during-keyspace-selection':
+        # the second blocking call of _replace: the USE round trip on the new connection
+        class Selecting(P.Conn):
+            def set_keyspace_blocking(self_, ks):
+                call_value(vc.ctx, BoundMethod(resolve(HC + 'shutdown'), pool), [], {})
+                self_.keyspace = ks
+        w.conn_class = Selecting
     vc.call(HC + '_replace', pool, old)
     new = [c for c in w.opened if c.name.startswith('new')]
     if mode == 'already-shutdown':
@@ -164,3 +171,11 @@ def ks_accounting(vc):
         vc.check('same/nothing-sent', sent == [])
     else:
         vc.check('other/USE-sent-once-not-yet-called-back', len(sent) == 1 and seen == [])
+
+
+# "in-flight counts never go negative" over timeouts and late responses needs the connection side of the accounting: a late response releases its orphaned
+# stream exactly once (slot given back once, id leaves the orphan set, so that a reuse of the id is not taken for another late response), and a timeout
+# orphans without touching the count.  C09's contracts on Connection.process_msg and ResponseFuture._on_timeout, re-discharged here.
+from contracts import c09_stream_ids as _C09
+harness('C12', 'late-response-releases-the-slot-once', functions=['cassandra.connection.Connection.process_msg'], native='contracts.native.c09:replay')(_C09.process)
+harness('C12', 'timeout-orphans-without-releasing', functions=['cassandra.cluster.ResponseFuture._on_timeout'], native='contracts.native.c09:replay')(_C09.orphaning)
